@@ -125,7 +125,7 @@ RECURSIVE KChain(_)
 KChain(i) == IF KNext(i) = 0 THEN knotes[i].dur ELSE RAdd(knotes[i].dur, KChain(KNext(i)))
 KSounding == {[spine |-> knotes[i].spine, sub |-> knotes[i].sub, on |-> knotes[i].on, dur |-> KChain(i), step |-> knotes[i].step, alter |-> knotes[i].alter,
                octave |-> knotes[i].octave, grace |-> knotes[i].grace] : i \in {j \in 1..Len(knotes) : knotes[j].rest = 0 /\ knotes[j].prev = 0}}
-KRests == {[spine |-> knotes[i].spine, on |-> knotes[i].on, dur |-> knotes[i].dur] : i \in {j \in 1..Len(knotes) : knotes[j].rest = 1}}
+KRests == {[spine |-> knotes[i].spine, sub |-> knotes[i].sub, on |-> knotes[i].on, dur |-> knotes[i].dur] : i \in {j \in 1..Len(knotes) : knotes[j].rest = 1}}
 (* the smallest number of divisions per quarter that represents every duration and position exactly *)
 KDens == {knotes[i].dur[2] : i \in 1..Len(knotes)} \cup {knotes[i].on[2] : i \in 1..Len(knotes)}
 (* ---- rules ---- *)
